@@ -80,10 +80,10 @@ def get_diagonal_indices(mat):
     assert mat.ndim == 2, "Not a matrix"
     n = min(*mat.shape)  # Matrix size
     bmat = mat != 0
-    has_diag = bmat.diagonal()
+    has_diag = np.asarray(bmat.diagonal()).flatten()
     nnz_rows = np.array(bmat.sum(axis=0)).flatten()[:n]
     nnz_cols = np.array(bmat.sum(axis=1)).flatten()[:n]
-    return np.logical_and(has_diag, nnz_rows <= 1, nnz_cols <= 1)
+    return np.logical_and(has_diag, np.logical_and(nnz_rows <= 1, nnz_cols <= 1))
 
 
 class LDAWrapper(LinearSolver):
